@@ -39,7 +39,7 @@ PROPS = {
         "explanation": "numeric kernels of steel-core extracted verbatim and checked against mathematical-integer specs with Kani",
     },
     "C07": {
-        "units": ["num", "vm"],
+        "units": ["num", "vm", "pers"],
         "trusted_base": COMMON_TB + ["units/num/prelude.rs (see C10)"],
         "assumptions": [
             "only panic-freedom of the numeric built-ins on every scalar argument kind and magnitude is decided; arbitrary source text, native stack overflow and engine recovery after errors are NOT covered",
@@ -82,7 +82,7 @@ PROPS = {
         "explanation": "free-list allocate / weak collection / recount / grow and the mark-bit protocol under contract (bounded sizes)",
     },
     "C19": {
-        "units": ["heap"],
+        "units": ["heap", "heapo", "glob"],
         "trusted_base": COMMON_TB + [
             "units/heap/prelude.rs: StandardShared=Arc / WeakShared=Weak (as crate::gc defines them for `sync`), MutContainer as RefCell with read()/write(), reduced SteelVal, channel stubs, log no-op",
             "std Arc/Weak/RefCell/Vec are executed as compiled by Kani",
